@@ -136,6 +136,8 @@ def run(res):
             b.add("DecRowsTrace", d["rows"], desc)
         if d.get("sbs") and len(d["sbs"]) > 1:
             b.add("DecWaveTrace", d["sbs"], desc)
+        elif t > 1 and d["rc"] == 0:
+            raise vlib.ModelFailure("no superblock events (stream decsb) recorded for a multi-threaded decode: hooks missing? " + desc)
     res.sample({"observations": b.recs.get("Observe", [])[:4]})
     res.sample({"row_job_trace_prefix": b.recs.get("DecRowsTrace", [])[:12]})
     def kf(rej):
